@@ -203,6 +203,16 @@ func (l *Lexer) shiftDOCTYPEText() []byte {
 				l.r.Move(3)
 			}
 			continue
+		} else if c == '<' && !inString && l.r.Peek(1) == '?' {
+			// so may processing instructions
+			l.r.Move(2)
+			for l.r.Peek(0) != 0 && (l.r.Peek(0) != '?' || l.r.Peek(1) != '>') {
+				l.r.Move(1)
+			}
+			if l.r.Peek(0) != 0 {
+				l.r.Move(2)
+			}
+			continue
 		} else if (c == '[' || c == ']') && !inString {
 			inBrackets = (c == '[')
 		} else if c == '>' && !inString && !inBrackets {
